@@ -39,6 +39,8 @@ type bufCtx struct {
 	outSlice types.Object            // the caller's slice that is written (its current value is en.lv)
 	inFor    int                     // depth of `for` bodies being translated
 	outer    map[types.Object]bool   // variables declared outside the innermost loop
+	roBufs   map[types.Object]string // further buffers that are only read (conversion source): Go variable -> Lean header
+	typed    bool                    // samples are used at their static class: float cells are decoded / encoded
 }
 
 type needRes struct{ why string }
@@ -63,6 +65,22 @@ func (b *body) isBufExpr(e ast.Expr) bool {
 		}
 	}
 	return false
+}
+
+// bufVar: the Lean header variable of the buffer e denotes (the written buffer, or one that is only read)
+func (b *body) bufVar(e ast.Expr, en env) (string, bool) {
+	if b.isBufExpr(e) {
+		return en.bv, true
+	}
+	if p, ok := e.(*ast.ParenExpr); ok {
+		return b.bufVar(p.X, en)
+	}
+	if id, ok := e.(*ast.Ident); ok && b.bm.roBufs != nil {
+		if n, ok := b.bm.roBufs[b.t.info.Uses[id]]; ok {
+			return n, true
+		}
+	}
+	return "", false
 }
 
 // isDataExpr: e is `<buffer>.data`
@@ -163,7 +181,11 @@ func (b *body) bufExpr(e ast.Expr, en env, bs *binds) (string, ty, bool) {
 			}
 		}
 		sel, ok := x.Fun.(*ast.SelectorExpr)
-		if !ok || !b.isBufExpr(sel.X) {
+		if !ok {
+			return "", ty{}, false
+		}
+		hdr, isBuf := b.bufVar(sel.X, en)
+		if !isBuf {
 			return "", ty{}, false
 		}
 		s, ok := t.info.Selections[sel]
@@ -181,18 +203,18 @@ func (b *body) bufExpr(e ast.Expr, en env, bs *binds) (string, ty, bool) {
 		switch owner {
 		case "channels":
 			name := t.need(callee)
-			return fmt.Sprintf("(%s (%s.ch : Int) %s)", name, en.bv, strings.Join(args, " ")), et, true
+			return fmt.Sprintf("(%s (%s.ch : Int) %s)", name, hdr, strings.Join(args, " ")), et, true
 		case "bitDepth":
 			name := t.need(callee)
-			return fmt.Sprintf("(%s (%s.depth : Int) %s)", name, en.bv, strings.Join(args, " ")), et, true
+			return fmt.Sprintf("(%s (%s.depth : Int) %s)", name, hdr, strings.Join(args, " ")), et, true
 		case "Buffer":
 			name, shape := t.needBuf(callee)
 			switch shape {
 			case "pure":
-				return fmt.Sprintf("(%s %s %s)", name, en.bv, strings.Join(args, " ")), et, true
+				return fmt.Sprintf("(%s %s %s)", name, hdr, strings.Join(args, " ")), et, true
 			case "option":
 				n := en.fresh("r")
-				call := fmt.Sprintf("(%s %s %s)", name, en.bv, strings.Join(args, " "))
+				call := fmt.Sprintf("(%s %s %s)", name, hdr, strings.Join(args, " "))
 				if b.bm.res {
 					*bs = append(*bs, fmt.Sprintf("(Res.ofUnspec %s).bind fun _ %s =>", call, n))
 				} else {
@@ -206,7 +228,10 @@ func (b *body) bufExpr(e ast.Expr, en env, bs *binds) (string, ty, bool) {
 					fail("call of the state-changing method %s inside an expression", callee.Name())
 				}
 				n := en.fresh("r")
-				*bs = append(*bs, fmt.Sprintf("(%s %s %s %s).bind fun _ %s =>", name, en.hv, en.bv, strings.Join(args, " "), n))
+				*bs = append(*bs, fmt.Sprintf("(%s %s %s %s).bind fun _ %s =>", name, en.hv, hdr, strings.Join(args, " "), n))
+				if b.bm.typed && et.c == cFloat {
+					return fmt.Sprintf("(decodeF %s %s.2)", et.lean, n), et, true
+				}
 				return n + ".2", et, true
 			}
 		}
@@ -430,7 +455,11 @@ func (b *body) bufStmt(s ast.Stmt, tail []ast.Stmt, rest [][]ast.Stmt, en env, i
 					var bs binds
 					var args []string
 					for _, a := range call.Args {
-						v, _ := b.expr(a, en, &bs)
+						v, vt := b.expr(a, en, &bs)
+						if b.bm.typed && vt.c == cFloat {
+							// a float value stored into the buffer: its cell is the bit pattern
+							v = fmt.Sprintf("(encodeF %s %s)", vt.lean, v)
+						}
 						args = append(args, v)
 					}
 					h2, r := en.fresh("h"), en.fresh("r")
